@@ -487,6 +487,20 @@ func (x *H) emit(body string, d desc, nontrivial bool, p *printer, classes ...st
 	x.id++
 }
 
+func hasEmptySpan(h *histogram.FloatHistogram) bool {
+	for _, s := range h.PositiveSpans {
+		if s.Length == 0 {
+			return true
+		}
+	}
+	for _, s := range h.NegativeSpans {
+		if s.Length == 0 {
+			return true
+		}
+	}
+	return false
+}
+
 func populated(h *histogram.FloatHistogram) int {
 	n := 0
 	for _, v := range h.PositiveBuckets {
@@ -609,6 +623,13 @@ func (x *H) arith(op int, a, b *histogram.FloatHistogram, corpus string) {
 				classes = append(classes, "arith:finding-double-count-configuration")
 			}
 		}
+	}
+	if hasEmptySpan(a) {
+		// known finding: addBuckets adds to bucketsA[0] / walks spansA without checking Length > 0
+		if shape == "arith" {
+			shape = "arith-receiver-zero-length-span"
+		}
+		classes = append(classes, "arith:receiver-has-zero-length-span")
 	}
 	if !b.Equals(bBefore) || b.CounterResetHint != bBefore.CounterResetHint {
 		x.meta.GoViol = append(x.meta.GoViol, gallina.GoViolation{ID: fmt.Sprint(x.id), Shape: shape, What: name + " modified the other histogram"})
@@ -854,9 +875,15 @@ func main() {
 			PositiveSpans: []histogram.Span{{Offset: 1, Length: 1}}, PositiveBuckets: []float64{5}}
 		cur := &histogram.FloatHistogram{Schema: 0, ZeroThreshold: zt, ZeroCount: 5, Count: 5}
 		x.detect(cur, prev, "corpus", "finding-detect-spurious-reset")
+		// zero-length first span in the receiver: b's bucket lands in the wrong bucket
+		za := &histogram.FloatHistogram{Schema: 0, Count: 5, PositiveSpans: []histogram.Span{{Offset: 0, Length: 0}, {Offset: 2, Length: 1}}, PositiveBuckets: []float64{5}}
+		zb := &histogram.FloatHistogram{Schema: 0, Count: 7, PositiveSpans: []histogram.Span{{Offset: 0, Length: 1}}, PositiveBuckets: []float64{7}}
+		x.arith(0, za, zb, "finding-add-zero-length-span")
+		x.arith(0, zb, za, "finding-add-zero-length-span-commuted-ok")
+		x.arith(2, za, zb, "finding-kahanadd-zero-length-span")
 	}
 
-	nA := f.Count(420, 6000)
+	nA := f.Count(300, 6000)
 	for i := 0; i < nA; i++ {
 		r := gen.Fork(f.Seed, i)
 		var a, b *histogram.FloatHistogram
@@ -893,7 +920,7 @@ func main() {
 		x.arith(r.Intn(3), a, b, "")
 	}
 
-	nC := f.Count(130, 1500)
+	nC := f.Count(90, 1500)
 	for i := 0; i < nC; i++ {
 		r := gen.Fork(f.Seed, 1000000+i)
 		var a *histogram.FloatHistogram
@@ -905,7 +932,7 @@ func main() {
 		x.compact(a, int(r.PickI64(0, 0, 1, 2, 3, 5)))
 	}
 
-	nR := f.Count(90, 1000)
+	nR := f.Count(60, 1000)
 	for i := 0; i < nR; i++ {
 		r := gen.Fork(f.Seed, 2000000+i)
 		a := genExpAt(r, genSchema(r), r.Range(-3, 3)*16, r.Chance(1, 4))
@@ -930,7 +957,7 @@ func main() {
 		x.reduce(a, t)
 	}
 
-	nD := f.Count(300, 4500)
+	nD := f.Count(220, 4500)
 	for i := 0; i < nD; i++ {
 		r := gen.Fork(f.Seed, 3000000+i)
 		switch k := r.Intn(20); {
@@ -1004,7 +1031,7 @@ func main() {
 		}
 	}
 
-	nI := f.Count(170, 2000)
+	nI := f.Count(120, 2000)
 	for i := 0; i < nI; i++ {
 		r := gen.Fork(f.Seed, 4000000+i)
 		var fh *histogram.FloatHistogram
